@@ -26,7 +26,7 @@ Print Assumptions C11_nonfinite_any_position.
    descriptor, fitted (or unfitted for the fitting methods), loops skipped or not: ValueError before any use. *)
 Theorem C11_entrypoints_partial : forall e k d fitted skip,
   In e c11_traces -> applicable e k = true -> corrupted k d -> state_ok e fitted = true ->
-  excepted e k (d_cont d) fitted = false ->
+  excepted e k (d_cont d) (d_dt d) fitted = false ->
   run_trace (e_actions e) d fitted skip = RaisedVE.
 Proof. exact entrypoints_partial. Qed.
 Print Assumptions C11_entrypoints_partial.
@@ -40,7 +40,7 @@ Print Assumptions C11_entrypoints_refuted.
 (* the exception list is tight: each listed exception is witnessed by an extracted trace that does not reject *)
 Theorem C11_exceptions_genuine : forall x, In x exceptions ->
   exists e a s, In e c11_traces /\ exc_entry_matches x e = true /\ applicable e (x_kind x) = true /\
-    state_ok e (x_fitted x) = true /\ a_corrupted (x_kind x) a = true /\ opt_match cont_eqb (x_cont x) (a_cont a) = true /\
+    state_ok e (x_fitted x) = true /\ a_corrupted (x_kind x) a = true /\ (opt_match cont_eqb (x_cont x) (a_cont a) && opt_match dkind_eqb (x_dt x) (a_dt a)) = true /\
     run_atrace (e_actions e) a (x_fitted x) s <> RaisedVE.
 Proof. exact exceptions_genuine_all. Qed.
 Print Assumptions C11_exceptions_genuine.
